@@ -8,6 +8,8 @@
   `−MATE_VALUE + ply`, every level negates); what is proved here is that the printed number is the right function of it.
 -/
 import Jence.Model.Search
+import Jence.Lemmas.ForcedMate
+import Jence.Lemmas.IdVal
 namespace Jence.Props.C11
 open Jence
 
@@ -72,6 +74,160 @@ theorem mate_sign (p : Int) (hr : inMateRange p) (hp : 2 ≤ p) :
   · rw [Int.tdiv_eq_ediv_of_nonneg (by omega)]; omega
   · have : -(-V + p + V) = -p := by omega
     rw [this, Int.neg_tdiv, Int.tdiv_eq_ediv_of_nonneg (by omega)]; omega
+
+/-! ### T11.2 (part) - a mate announcement backed by a minimax value is a forced mate of at most that distance
+
+  `MatesIn R n g` / `MatedIn R n g` (`Lemmas/ForcedMate`): the side to move at `g` can force checkmate within `n` plies /
+  is checkmated within `n` plies whatever it plays - defined over the moves the rules instance generates and `make`
+  accepts, with no reference to scores. `EvalInv R P`: on a set `P` of positions closed under the moves, the static
+  evaluation stays strictly inside `(−MATE_BOUND, MATE_BOUND)` (for chess that is T16.5 `eval_bounded` on positions with
+  one king and at most fifteen other men a side). -/
+
+/-- **T11.2a** Every depth, fuel, game history and rules instance: when the plain minimax value of the root (`nVal`,
+    T19.2: check extension, quiescence at the horizon, mate by distance, stalemate and history positions 0) is announced
+    as `mate N`, then for `N > 0` the side to move can force checkmate within `2N − 1` plies (its `N`-th move mates at
+    the latest) and for `N < 0` it is checkmated within `2|N|` plies whatever it plays (`N = −1`: every move it has
+    allows mate next move). The capture search and the evaluation cannot produce such a score (`qVal_bound`). -/
+theorem announced_value_is_forced_mate (R : Rules) (P : Game → Prop) (hI : EvalInv R P) (H : List UInt64) (fuel : Nat)
+    (g : Game) (depth : Nat) (hP : P g) (N : Int) (hs : scoreField (nVal R H fuel g depth 0) = .mate N) :
+    (0 < N → MatesIn R (2 * N.toNat - 1) g) ∧ (N < 0 → MatedIn R (2 * (-N).toNat) g) := by
+  obtain ⟨hb0, hbv⟩ := consts_ok
+  have hm := nVal_mate R P hI H fuel g depth 0 hP
+  generalize nVal R H fuel g depth 0 = v at hs hm
+  unfold scoreField at hs
+  by_cases c1 : (v ≥ -Gen.MATE_VALUE ∧ v < -Gen.MATE_BOUND)
+  · have c1' : (decide (v ≥ -Gen.MATE_VALUE) && decide (v < -Gen.MATE_BOUND)) = true := by simp [c1]
+    rw [if_pos c1'] at hs
+    simp only [ScoreField.mate.injEq] at hs
+    obtain ⟨n, hn, hd⟩ := hm.2 c1.2
+    have hN : N = -((n : Int) / 2) := by
+      rw [← hs, hn]
+      have : -(-Gen.MATE_VALUE + ((0 + n : Nat) : Int) + Gen.MATE_VALUE) = -(n : Int) := by push_cast; omega
+      rw [this, Int.neg_tdiv, Int.tdiv_eq_ediv_of_nonneg (Int.natCast_nonneg _)]
+    refine ⟨fun h => by omega, fun _ => ?_⟩
+    have : (-N).toNat = n / 2 := by rw [hN]; omega
+    rw [this]
+    exact hd.even R
+  · have c1' : ¬ ((decide (v ≥ -Gen.MATE_VALUE) && decide (v < -Gen.MATE_BOUND)) = true) := by simpa using c1
+    rw [if_neg c1'] at hs
+    by_cases c2 : (v ≤ Gen.MATE_VALUE ∧ v > Gen.MATE_BOUND)
+    · have c2' : (decide (v ≤ Gen.MATE_VALUE) && decide (v > Gen.MATE_BOUND)) = true := by simp [c2]
+      rw [if_pos c2'] at hs
+      simp only [ScoreField.mate.injEq] at hs
+      obtain ⟨n, hn, hd⟩ := hm.1 c2.2
+      have hN : N = (n : Int) / 2 + 1 := by
+        rw [← hs, hn]
+        have : Gen.MATE_VALUE - (Gen.MATE_VALUE - ((0 + n : Nat) : Int)) = (n : Int) := by push_cast; omega
+        rw [this, Int.tdiv_eq_ediv_of_nonneg (Int.natCast_nonneg _)]
+      refine ⟨fun _ => ?_, fun h => by omega⟩
+      have : N.toNat = n / 2 + 1 := by rw [hN]; omega
+      rw [this]
+      exact hd.mono R (by omega)
+    · have c2' : ¬ ((decide (v ≤ Gen.MATE_VALUE) && decide (v > Gen.MATE_BOUND)) = true) := by simpa using c2
+      rw [if_neg c2'] at hs
+      cases hs
+
+/-- a bound on the side the search reports is enough: a score at least as large as a value... -/
+theorem forced_of_lower_bound (R : Rules) (P : Game → Prop) (hI : EvalInv R P) (H : List UInt64) (fuel : Nat)
+    (g : Game) (depth : Nat) (hP : P g) (s : Int) (hle : s ≤ nVal R H fuel g depth 0) (N : Int) (hN : 0 < N)
+    (hs : scoreField s = .mate N) : MatesIn R (2 * N.toNat - 1) g := by
+  obtain ⟨hb0, hbv⟩ := consts_ok
+  have hm := nVal_mate R P hI H fuel g depth 0 hP
+  generalize nVal R H fuel g depth 0 = v at hle hm
+  unfold scoreField at hs
+  by_cases c1 : (s ≥ -Gen.MATE_VALUE ∧ s < -Gen.MATE_BOUND)
+  · have c1' : (decide (s ≥ -Gen.MATE_VALUE) && decide (s < -Gen.MATE_BOUND)) = true := by simp [c1]
+    rw [if_pos c1'] at hs
+    simp only [ScoreField.mate.injEq] at hs
+    have : Int.tdiv (-(s + Gen.MATE_VALUE)) 2 ≤ 0 := by
+      have h0 : -(s + Gen.MATE_VALUE) ≤ 0 := by omega
+      have := Int.neg_tdiv (s + Gen.MATE_VALUE) 2
+      rw [this, Int.tdiv_eq_ediv_of_nonneg (by omega)]; omega
+    omega
+  · have c1' : ¬ ((decide (s ≥ -Gen.MATE_VALUE) && decide (s < -Gen.MATE_BOUND)) = true) := by simpa using c1
+    rw [if_neg c1'] at hs
+    by_cases c2 : (s ≤ Gen.MATE_VALUE ∧ s > Gen.MATE_BOUND)
+    · have c2' : (decide (s ≤ Gen.MATE_VALUE) && decide (s > Gen.MATE_BOUND)) = true := by simp [c2]
+      rw [if_pos c2'] at hs
+      simp only [ScoreField.mate.injEq] at hs
+      obtain ⟨n, hn, hd⟩ := hm.1 (by omega)
+      rw [Int.tdiv_eq_ediv_of_nonneg (by omega)] at hs
+      refine hd.mono R ?_
+      push_cast at hn
+      omega
+    · have c2' : ¬ ((decide (s ≤ Gen.MATE_VALUE) && decide (s > Gen.MATE_BOUND)) = true) := by simpa using c2
+      rw [if_neg c2'] at hs
+      cases hs
+
+theorem forced_of_upper_bound (R : Rules) (P : Game → Prop) (hI : EvalInv R P) (H : List UInt64) (fuel : Nat)
+    (g : Game) (depth : Nat) (hP : P g) (s : Int) (hle : nVal R H fuel g depth 0 ≤ s) (N : Int) (hN : N < 0)
+    (hs : scoreField s = .mate N) : MatedIn R (2 * (-N).toNat) g := by
+  obtain ⟨hb0, hbv⟩ := consts_ok
+  have hm := nVal_mate R P hI H fuel g depth 0 hP
+  generalize nVal R H fuel g depth 0 = v at hle hm
+  unfold scoreField at hs
+  by_cases c1 : (s ≥ -Gen.MATE_VALUE ∧ s < -Gen.MATE_BOUND)
+  · have c1' : (decide (s ≥ -Gen.MATE_VALUE) && decide (s < -Gen.MATE_BOUND)) = true := by simp [c1]
+    rw [if_pos c1'] at hs
+    simp only [ScoreField.mate.injEq] at hs
+    obtain ⟨n, hn, hd⟩ := hm.2 (by omega)
+    have e : -(s + Gen.MATE_VALUE) = -(s + Gen.MATE_VALUE) := rfl
+    rw [Int.neg_tdiv, Int.tdiv_eq_ediv_of_nonneg (by omega)] at hs
+    refine (hd.even R).mono R ?_
+    push_cast at hn
+    omega
+  · have c1' : ¬ ((decide (s ≥ -Gen.MATE_VALUE) && decide (s < -Gen.MATE_BOUND)) = true) := by simpa using c1
+    rw [if_neg c1'] at hs
+    by_cases c2 : (s ≤ Gen.MATE_VALUE ∧ s > Gen.MATE_BOUND)
+    · have c2' : (decide (s ≤ Gen.MATE_VALUE) && decide (s > Gen.MATE_BOUND)) = true := by simp [c2]
+      rw [if_pos c2'] at hs
+      simp only [ScoreField.mate.injEq] at hs
+      rw [Int.tdiv_eq_ediv_of_nonneg (by omega)] at hs
+      omega
+    · have c2' : ¬ ((decide (s ≤ Gen.MATE_VALUE) && decide (s > Gen.MATE_BOUND)) = true) := by simpa using c2
+      rw [if_neg c2'] at hs
+      cases hs
+
+/-- **T11.2b (partial: nominal depths 1 and 2, table bypassed)** Every iteration of depth at most 2 that the deepening
+    loop runs, in a run that was neither stopped nor overflowed: when its score is printed as `mate N` with `N > 0` and
+    is not a fail-low (`score > alpha`), the side to move can force checkmate within `2N − 1` plies; when `N < 0` and it
+    is not a fail-high (`score < beta`), the side to move is checkmated within `2|N|` plies. Through T19.3 the score is the
+    minimax value inside the window and bounds it on the reported side outside. Missing for the full T11.2: iterations
+    of depth >= 3 (null move, reductions, table cut-offs), validated against the rules' exhaustive mate search instead. -/
+theorem shallow_mate_announcement_is_forced_partial (R : Rules) (cfg : Cfg) (hbyp : cfg.ttBypass = true) (g : Game)
+    (H : List UInt64) (count cur : Nat) (alpha beta score : Int) (e : Env) (hab : alpha < beta) (hp : e.ply = 0)
+    (hH : e.rep.pre = H) (hclean : Clean (idLoop R cfg g count cur alpha beta score e).2.2)
+    (P : Game → Prop) (hI : EvalInv R P) (hP : P g) :
+    ∀ it ∈ idTrace R cfg g count cur alpha beta e, it.depth ≤ 2 → ∀ N, scoreField it.score = .mate N →
+      (0 < N → it.alpha < it.score → MatesIn R (2 * N.toNat - 1) g) ∧
+      (N < 0 → it.score < it.beta → MatedIn R (2 * (-N).toNat) g) := by
+  intro it hit hd N hs
+  obtain ⟨hwin, hsound⟩ := idLoop_value R cfg hbyp g H count cur alpha beta score e hab hp hH hclean it hit hd
+  obtain ⟨s1, s2, s3⟩ := hsound
+  refine ⟨fun hN hlo => ?_, fun hN hhi => ?_⟩
+  · refine forced_of_lower_bound R P hI H negaFuel g it.depth hP it.score ?_ N hN hs
+    by_cases hb : it.score ≥ it.beta
+    · exact s2 hb
+    · rw [s3 hlo (by omega)]; exact Int.le_refl _
+  · refine forced_of_upper_bound R P hI H negaFuel g it.depth hP it.score ?_ N hN hs
+    by_cases ha : it.score ≤ it.alpha
+    · exact s1 ha
+    · rw [s3 (by omega) hhi]; exact Int.le_refl _
+
+/-! Non-vacuity: a toy rules instance in which the mover mates in one (one move, after which the opponent is in check
+    without a move); `EvalInv` holds with `P := fun _ => True`; the value at depth 2 is `MATE_VALUE − 1`, announced as
+    `mate 1`, and `MatesIn 1` holds. -/
+def toyMate : Rules where
+  generate := fun g b => if b && g.halfMoves == 0 then [Move.null] else []
+  make := fun g _ => if g.halfMoves == 0 then some { g with halfMoves := 1 } else none
+  inCheck := fun g => g.halfMoves == 1
+  evaluate := fun _ => 7
+  nullMove := id
+  firstLegal := fun _ => none
+theorem toyMate_inv : EvalInv toyMate (fun _ => True) := ⟨fun _ _ _ _ _ => trivial, fun _ _ => by show -Gen.MATE_BOUND < (7 : Int) ∧ (7 : Int) < Gen.MATE_BOUND; decide⟩
+example : scoreField (nVal toyMate [] 3 default 2 0) = .mate 1 := by decide +kernel
+example : MatesIn toyMate 1 default :=
+  (announced_value_is_forced_mate toyMate _ toyMate_inv [] 3 default 2 trivial 1 (by decide +kernel)).1 (by decide)
 
 /-! Non-vacuity and the concrete cases the property names. -/
 example : inMateRange 1 ∧ (1 : Int) % 2 = 1 := by unfold inMateRange; decide
